@@ -12,6 +12,7 @@ import FM.Model.BlockStart
 import FM.Model.TagSeg
 import FM.Model.Scan
 import FM.Model.FullWrap
+import FM.Model.Transforms
 /-
   One operation per input line, one canonical answer per output line.
 -/
@@ -178,6 +179,25 @@ def step (line : String) : String :=
         else if mode == "sentence" then encStr (mdSentenceWrapper cls w ml t i0 s0)
         else bad
       | _, _, _, _, _ => bad
+  | ["transform", kind, chars, fl, defs, doc] =>
+      -- chars/fl: the distinct characters of the document and, per character, '1' if it is `\\w`
+      match decStr chars, parseSexps defs, parseSexps doc with
+      | some chars, some ds, some bs =>
+        match toDefs ds, toBlocks (doc.length + 2) bs with
+        | some ds, some bs =>
+          let tbl := chars.zip fl.toList
+          let isWord (c : Char) : Bool := match tbl.find? (·.1 == c) with | some (_, d) => d == '1' | none => false
+          let wrap (t i0 s0 : Str) : Str := Char.ofNat 1 :: i0 ++ Char.ofNat 2 :: s0 ++ Char.ofNat 2 :: t ++ [Char.ofNat 3]
+          let out : Option (List Block) :=
+            if kind == "quotes" then some (rewriteAcrossInlines (smartQuotes isWord) bs)
+            else if kind == "ellipses" then some (rewriteTextContent (ellipses isWord) bs)
+            else if kind == "unbold" then some (unboldBlocks bs)
+            else none
+          match out with
+          | some bs' => encStr (renderDoc { wrap := wrap, spacing := .preserve, defs := ds } bs')
+          | none => bad
+        | _, _ => bad
+      | _, _, _ => bad
   | _ => bad
 
 partial def loop (hin hout : IO.FS.Stream) : IO Unit := do
